@@ -11,8 +11,9 @@ from ..defuse import DefUse, Terms, show, walk_term
 from ..defuse import key as tkey
 from ..tutil import no_uids
 from ..flow import Flow
-from ..paths import path_variants
-from ..tutil import (bound_args, concat_parts, mapped_over, np_call,
+from ..paths import path_variants, return_cases
+from ..events import root_name
+from ..tutil import (EvUnknown, ev_term, subst_params, bound_args, seq_parts, concat_parts, mapped_over, np_call,
                      positional, seq_elems, term_strings, literal_parts,
                      merge_fstr, expand_const_comp, simp, items_as_subs)
 
@@ -72,41 +73,52 @@ def run(ctx):
 def _stream_direction(ctx):
     prog = ctx.prog
     f = prog.func("mokapot.confidence._save_sorted_metadata_chunks")
-    sorts = [n for n in ast.walk(f.node) if isinstance(n, ast.Call)
-             and isinstance(n.func, ast.Attribute)
-             and n.func.attr == "sort_values"]
-    ctx.require(len(sorts) == 1, f"{f.qual}: expected one sort_values")
-    kws = {k.arg: k.value for k in sorts[0].keywords}
-    by = kws.get("by") or (sorts[0].args[0] if sorts[0].args else None)
-    ok = (const_value(by) == "score"
-          and const_value(kws.get("ascending"), True) is False)
-    ctx.check(ok, "C03a-chunk-sorted-descending", f,
-              "each temporary chunk is sorted by score, best first",
-              f"chunk is sorted with {ast.unparse(sorts[0])[:100]}",
-              node=sorts[0])
-    # sort happens after the scores were attached and before writing
-    cfg = CFG(f.node)
+    # sink-driven: what is handed to the chunk writer
+    T = Terms(DefUse(prog, f))
     writes = [n for n in ast.walk(f.node) if isinstance(n, ast.Call)
               and isinstance(n.func, ast.Attribute)
-              and n.func.attr == "write"]
-    assigns = [n for n in ast.walk(f.node) if isinstance(n, ast.Call)
-               and isinstance(n.func, ast.Attribute)
-               and n.func.attr == "assign"]
-    ctx.require(len(writes) == 1 and len(assigns) == 1,
-                f"{f.qual}: assign/write idiom not recognised")
-    a_kws = {k.arg: ast.unparse(k.value) for k in assigns[0].keywords}
-    ctx.check(a_kws.get("score") == f.params[1],
-              "C03a-score-attached", f,
-              "the chunk's own score slice is attached as column 'score'",
-              f"assign({a_kws})", node=assigns[0])
-    an, sn, wn = (cfg.node_of(x).id for x in (assigns[0], sorts[0],
-                                              writes[0]))
-    ok_order = cfg.every_path_passes(cfg.entry.id, sn, {an}) and \
-        cfg.every_path_passes(cfg.entry.id, wn, {sn})
-    ctx.check(ok_order, "C03a-sort-before-write", f,
-              "scores attached, then sorted, then written - on every path",
-              "a path writes the chunk without sorting it by score",
+              and n.func.attr == "write" and len(n.args) == 1]
+    ctx.require(len(writes) == 1, f"{f.qual}: chunk write not found")
+    wt = T.of(writes[0].args[0])
+    alts = list(wt[1]) if wt[0] == "phi" else [wt]
+    ok_sorted = ok_score = bool(alts)
+    why = ""
+    for a_ in alts:
+        t = a_
+        # optional de-duplication on top of the sorted frame
+        if t[0] == "mcall" and t[2] == "drop_duplicates":
+            t = t[1]
+        sv = None
+        if t[0] in ("mut", "mcall") and t[2] == "sort_values":
+            args, kws = t[3], dict(t[4])
+            by = kws.get("by", args[0] if args else None)
+            asc = kws.get("ascending", ("const", True))
+            sv = (by, asc)
+            base = t[1]
+        if sv is None or sv[0] not in (
+                ("const", "score"), ("list", (("const", "score"),))) or \
+                sv[1] != ("const", False):
+            ok_sorted = False
+            why = (f"what is written is {show(a_, 120)}: not (a "
+                   "de-duplication of) the chunk sorted by descending "
+                   "'score'")
+            continue
+        att = [x for x in walk_term(base) if isinstance(x, tuple) and x
+               and x[0] == "mcall" and x[2] == "assign"
+               and dict(x[4]).get("score") == ("param", f.params[1])]
+        if not att:
+            ok_score = False
+    ctx.check(ok_sorted, "C03a-chunk-sorted-descending", f,
+              "each temporary chunk is sorted by score, best first", why,
               node=writes[0])
+    ctx.check(ok_sorted, "C03a-sort-before-write", f,
+              "scores attached, then sorted, then written - on every path",
+              why or "a path writes the chunk without sorting it by score",
+              node=writes[0])
+    ctx.check(ok_score or not ok_sorted, "C03a-score-attached", f,
+              "the chunk's own score slice is attached as column 'score' "
+              "before sorting",
+              f"the sorted frame is {show(wt, 160)}", node=writes[0])
     g = prog.func("mokapot.confidence.create_sorted_file_iterator")
     ms = [n for n in ast.walk(g.node) if isinstance(n, ast.Call)
           and isinstance(n.func, ast.Name) and n.func.id == "merge_sort"]
@@ -742,6 +754,19 @@ def _target_decoy_routing(ctx):
         ctx.require(len(vz) == 1, f"{f.qual}: writer loop lost in a variant")
         bt = vT.of(vz[0].iter.args[1])
         elems = seq_elems(bt)
+        by_case = None
+        if elems is None and bt[0] == "call" and bt[1] in prog.funcs:
+            # the blocks are built by a helper: one reading per path of it
+            callee = prog.funcs[bt[1]]
+            b_ = bound_args(prog, bt) or {}
+            by_case = []
+            for case in return_cases(prog, callee, phi_vars=False):
+                ce = seq_elems(subst_params(case.term, b_))
+                if ce is None:
+                    by_case = None
+                    break
+                by_case.append(([(subst_params(c_, b_), o_)
+                                 for c_, o_ in case.conds], ce))
         if elems is None and bt[0] == "comp" and len(bt[3]) == 1 and \
                 bt[3][0][2] and seq_elems(bt[3][0][1]) is not None:
             ctx.check(False, "C03d-mask-order", f,
@@ -753,7 +778,8 @@ def _target_decoy_routing(ctx):
                       "file (decoy rows into the targets file)",
                       node=vz[0])
             return
-        ctx.require(elems is not None, f"{f.qual}: construction of the "
+        ctx.require(elems is not None or by_case is not None,
+                    f"{f.qual}: construction of the "
                     "output blocks not recognised: " + show(bt, 200))
         for sq in (False, True):
             for dc in (False, True):
@@ -764,10 +790,31 @@ def _target_decoy_routing(ctx):
                                 for t, o in v.conds)
                 except CondUnknown as e:
                     raise AnalysisError(f"{f.qual}: cannot evaluate {e}")
-                if takes:
-                    ctx.require((sq, dc) not in blocks_by_val,
-                                f"{f.qual}: two paths for one valuation")
-                    blocks_by_val[(sq, dc)] = elems
+                if not takes:
+                    continue
+                got = elems
+                if by_case is not None:
+                    def atoms(t, sq=sq, dc=dc):
+                        if t == ("param", "decoys"):
+                            return dc
+                        if t[0] == "cmp" and any(
+                                x == ("const", ".db")
+                                for x in walk_term(t)):
+                            return sq
+                        raise KeyError(t)
+                    try:
+                        hits = [ce for cc, ce in by_case if all(
+                            bool(ev_term(simp(c_), atoms)) == o_
+                            for c_, o_ in cc)]
+                    except (EvUnknown, KeyError) as e:
+                        raise AnalysisError(
+                            f"{f.qual}: cannot evaluate {str(e)[:80]}")
+                    ctx.require(len(hits) == 1, f"{f.qual}: helper paths "
+                                "for one valuation: " + str(len(hits)))
+                    got = hits[0]
+                ctx.require((sq, dc) not in blocks_by_val,
+                            f"{f.qual}: two paths for one valuation")
+                blocks_by_val[(sq, dc)] = got
     ctx.require(len(blocks_by_val) == 4, f"{f.qual}: output blocks not "
                 "determined for every (sqlite, decoys) valuation")
 
@@ -798,26 +845,30 @@ def _target_decoy_routing(ctx):
                   "the mask is the target-flag chunk of the same zip step",
                   f"mask is {show(tmask, 120)}", node=f.node)
     # writers are created from out_paths in order and zipped with data_out
-    wz = [n for n in ast.walk(f.node) if isinstance(n, ast.For)
-          and ast.unparse(n.iter) == "zip(writers, data_out)"]
-    wr = [n for n in ast.walk(f.node) if isinstance(n, ast.Assign)
-          and ast.unparse(n.targets[0]) == "writers"]
-    ok_w = bool(wz) and len(wr) == 1 and isinstance(
-        wr[0].value, ast.ListComp) and ast.unparse(
-            wr[0].value.generators[0].iter) == "out_paths" and not \
-        wr[0].value.generators[0].ifs
+    # writers are created from out_paths in order and zipped with the blocks
+    Tn = Terms(DefUse(prog, f))
+    wt = Tn.of(wz0[0].iter.args[0])
+    parts = seq_parts(wt)
+    ok_w = False
+    if parts and len(parts) == 1 and parts[0][0] == "each":
+        _k, elt, src = parts[0]
+        ok_w = root_name(src) == "out_paths" and any(
+            x == ("elem", src) for x in walk_term(elt))
     ctx.check(ok_w, "C03d-writers-in-path-order", f,
               "writer i is created for out_paths[i] and receives block i",
-              "writers/out_paths/data_out are not paired positionally",
-              node=f.node)
+              f"writers are {show(wt, 160)}", node=wz0[0])
     pops = [n for n in ast.walk(f.node) if isinstance(n, ast.Call)
-            and ast.unparse(n.func) == "out_paths.pop"]
-    ok_p = len(pops) == 1 and const_value(pops[0].args[0]) == 1 and any(
-        ast.unparse(g[0]).startswith("not decoys")
-        for g in cfg.guards(pops[0]))
+            and isinstance(n.func, ast.Attribute) and n.func.attr == "pop"
+            and Tn.of(n.func.value)[:2] in (("param", "out_paths"),
+                                            ("var", "out_paths"))]
+    ok_p = len(pops) == 1 and len(pops[0].args) == 1 and const_value(
+        pops[0].args[0]) == 1 and "not decoys" in cfg.conditions(
+            cfg.stmt_of(pops[0]))
     ctx.check(ok_p, "C03d-decoy-path-dropped", f,
               "without decoys only the decoy path (position 1) is dropped",
-              f"pops: {[ast.unparse(p) for p in pops]}", node=f.node)
+              f"pops: {[ast.unparse(p) for p in pops]} under "
+              f"{[cfg.conditions(cfg.stmt_of(p)) for p in pops]}",
+              node=f.node)
     # assign_confidence: position 0 = targets path, 1 = decoys path
     g = prog.func(AC)
     ofs = [n for n in ast.walk(g.node) if isinstance(n, ast.Assign)
